@@ -1,4 +1,4 @@
-import FatVerif.Proofs.DirWriteSim5
+import FatVerif.Proofs.DirWriteSim14
 /-! # C01 (simulation) — the effectful directory READER is the pure reader on the bytes of the image
 
 The directory code of the model (`Model/DirOps.lean`, programs over a device) and the slot-list algebra
@@ -468,6 +468,111 @@ theorem createFile_root_sim {d : Dev} {N : Nat} (h : RootReadable d N) (hwf : d.
   unfold rootDirSlots
   rw [rootSliceOf_geomEq hs.geom, hsl]
 
+/-! ## WRITES, third step: a cluster-chain directory without a directory entry (the root of FAT32), inside its allocated
+clusters
+
+Generic layer: Proofs/DirWriteSim6–12 (`WFam`, `WOps`; the fixed root and the chain directories share the proofs from
+`write_all` up). `File::write` marks the volume dirty (`set_dirty_flag(true)`), finds the cluster through the FAT at a
+cluster boundary, and writes to the raw storage; `seek` back over a slot walks the chain from its start when the slot
+was the first of a cluster. NOT covered: growth (a write at the end of the chain allocates a cluster), and directories
+WITH an entry (sub-directories: the write stamps the directory's own entry, which the clone's destructor writes back). -/
+
+open FatVerif.FileSim in
+theorem ChainReadable.inv {d : Dev} {c0 : Nat} {chain : List Nat} (h : ChainReadable d c0 none chain) (hwf : d.img.WF) :
+    ChainInv d.fs (FileH.new (some c0) none) c0 chain d :=
+  ⟨h.dir, hwf, FsGeomEq.refl _, h.fuel⟩
+
+open FatVerif.FileSim in
+theorem ChainReadable.of_inv {d d' : Dev} {c0 : Nat} {chain : List Nat}
+    (h : ChainInv d.fs (FileH.new (some c0) none) c0 chain d') : ChainReadable d' c0 none chain :=
+  ⟨h.dir, by rw [h.geom.clusterSize, dirFuel_geom h.geom]; exact h.fuel⟩
+
+open FatVerif.FileSim in
+theorem chainSlots_of_inv {d d' : Dev} {c0 : Nat} {chain : List Nat}
+    (h : ChainInv d.fs (FileH.new (some c0) none) c0 chain d') :
+    chainSlots d'.fs d'.img chain =
+      srcSlots d'.img (chainSrc d.fs chain) (chain.length * (d.fs.clusterSize / 32)) := by
+  rw [← srcSlots_chain d'.fs d'.img h.dir.geo.cs_pos h.dir.cs32 chain, chainSrc_geom h.geom, h.geom.clusterSize]
+
+/-- **`deleteEntry_sim`, cluster chain without an entry** (the root of FAT32) -/
+theorem deleteEntry_chain_sim {d : Dev} {c0 : Nat} {chain : List Nat} (h : ChainReadable d c0 none chain)
+    (hwf : d.img.WF) (le : LfnEntry)
+    (hmem : le ∈ readDirEntries d.fs.lfnAlloc true (chainSlots d.fs d.img chain)) :
+    ∃ d', run (deleteEntry (.file (FileH.new (some c0) none)) (toDirEntryS (chainSrc d.fs chain) le)) d = (.ok (), d') ∧
+      chainSlots d'.fs d'.img chain = DirSlots.deleteRange (chainSlots d.fs d.img chain) le.beginIdx le.endIdx ∧
+      d'.fs.curDirty = true ∧ d'.img.WF ∧ ChainReadable d' c0 none chain := by
+  have hinv := h.inv hwf
+  have hsl0 := chainSlots_of_inv hinv
+  have hb := readLoop_bounds d.fs.lfnAlloc true (chainSlots d.fs d.img chain) 0 0 _ (Nat.le_refl _) le hmem
+  rw [hsl0, srcSlots_length, Nat.zero_add] at hb
+  obtain ⟨k, hk⟩ : ∃ k, le.endIdx = le.beginIdx + k := ⟨le.endIdx - le.beginIdx, by omega⟩
+  obtain ⟨d', hr, _, hd, hinv', hsl, _⟩ := (chain_wfam rfl).deleteEntry chainInv_ok h.dir.slotGeo (chain_wfam rfl)
+    (chain_wops rfl) (toDirEntryS (chainSrc d.fs chain) le) le.beginIdx k (by omega) rfl
+    (by simp only [toDirEntryS]; rw [hk]) (by omega) d hinv
+  refine ⟨d', hr, ?_, hd, hinv'.wf, ChainReadable.of_inv hinv'⟩
+  rw [chainSlots_of_inv hinv', hsl, hsl0, hk]
+
+/-- **`writeEntry_sim`, cluster chain without an entry**, when the entry fits into the allocated clusters -/
+theorem writeEntry_chain_sim {d : Dev} {c0 : Nat} {chain : List Nat} (h : ChainReadable d c0 none chain)
+    (hwf : d.img.WF) (name : String) (raw : DirFileEntryData)
+    (hval : Names.validateLongName name = .ok ()) (hdot : (name = "." || name = "..") = false) (hraw : raw.WF)
+    (hfit : DirSlots.findFree (chainSlots d.fs d.img chain) (Lfn.numParts (Names.encodeUtf16 name.toList).length + 1) +
+      (Lfn.numParts (Names.encodeUtf16 name.toList).length + 1) ≤ chain.length * (d.fs.clusterSize / 32)) :
+    ∃ (d' : Dev) (e : DirEntry), run (writeEntry (.file (FileH.new (some c0) none)) name raw) d = (.ok e, d') ∧
+      e.data = raw ∧ e.lfn = Names.encodeUtf16 name.toList ∧
+      chainSlots d'.fs d'.img chain =
+        DirSlots.writeEntry (chainSlots d.fs d.img chain) (Names.encodeUtf16 name.toList) raw.serialize ∧
+      d'.fs.curDirty = true ∧ d'.img.WF ∧ ChainReadable d' c0 none chain := by
+  have hinv := h.inv hwf
+  have hsl0 := chainSlots_of_inv hinv
+  rw [hsl0] at hfit
+  obtain ⟨d', hr, _, hd, hinv', hsl, _⟩ := (chain_wfam rfl).writeEntry chainInv_ok h.dir.slotGeo (chain_wfam rfl)
+    (chain_wops rfl) name raw hval hdot hraw d hinv hfit
+  refine ⟨d', _, hr, rfl, rfl, ?_, hd, hinv'.wf, ChainReadable.of_inv hinv'⟩
+  rw [chainSlots_of_inv hinv', hsl, hsl0]
+
+/-- **`createFile_sim`, cluster chain without an entry** (`create_file(name)` in the root of a FAT32 volume), end to end -/
+theorem createFile_chain_sim {d : Dev} {c0 : Nat} {chain : List Nat} (h : ChainReadable d c0 none chain)
+    (hwf : d.img.WF) (ha : d.fs.lfnAlloc = true) (env : Env) (path name : String)
+    (hsp : Names.splitPath path = (name, none)) (hdot : (name = "." || name = "..") = false)
+    (hval : Names.validateLongName name = .ok ()) (a : List Nat)
+    (hchk : DirAlias.checkForExistenceL env.upper (chainSlots d.fs d.img chain) name (some false) 70000 = .ok (.alias a))
+    (hfit : DirSlots.findFree (chainSlots d.fs d.img chain) (Lfn.numParts (Names.encodeUtf16 name.toList).length + 1) +
+      (Lfn.numParts (Names.encodeUtf16 name.toList).length + 1) ≤ chain.length * (d.fs.clusterSize / 32))
+    (fuel : Nat) :
+    ∃ (d' : Dev) (e : DirEntry), run (createFile env (fuel + 1) (.file (FileH.new (some c0) none)) path) d =
+        (.ok (FileH.new (e.firstCluster d.fs) (some e.editor)), d') ∧
+      e.data = sfnAt d.fs d.clock a 0 none ∧ e.lfn = Names.encodeUtf16 name.toList ∧
+      chainSlots d'.fs d'.img chain = DirSlots.writeEntry (chainSlots d.fs d.img chain) (Names.encodeUtf16 name.toList)
+        (sfnAt d.fs d.clock a 0 none).serialize ∧
+      d'.fs.curDirty = true ∧ d'.img.WF ∧ ChainReadable d' c0 none chain := by
+  have hinv := h.inv hwf
+  have hsl0 := chainSlots_of_inv hinv
+  rw [hsl0] at hfit hchk
+  obtain ⟨d', e, hr, he1, he2, _, hd, hinv', hsl, _⟩ := (chain_wfam rfl).createFile chainInv_ok h.dir.slotGeo
+    (chain_wfam rfl) (chain_wops rfl) env path name hsp hdot hval d hinv ha a hchk hfit fuel
+  refine ⟨d', e, hr, he1, he2, ?_, hd, hinv'.wf, ChainReadable.of_inv hinv'⟩
+  rw [chainSlots_of_inv hinv', hsl, hsl0]
+
+/-! ## carrying the OTHER directories over a write
+
+After a write into one directory (`VolStep d d'` + the frame `FrameOutG`), every other directory is readable on the new
+device, with the same slot geometry: -/
+
+open FatVerif.FileSim in
+/-- a cluster-chain directory (any handle) stays readable across a step that keeps fault schedule, size, geometry and
+    the first FAT copy -/
+theorem ChainReadable.of_volStep {d d' : Dev} {c0 : Nat} {ent : Option DirEntryEditor} {chain : List Nat}
+    (h : ChainReadable d c0 ent chain) (hs : VolStep d d') (hfat : FatAgree d.fs d.img d'.img) :
+    ChainReadable d' c0 ent chain :=
+  ⟨h.dir.of_agree hs.failAt hs.size hs.geom hfat, by
+    rw [hs.geom.clusterSize, dirFuel_geomEq hs.geom]; exact h.fuel⟩
+
+open FatVerif.FileSim in
+/-- … and its slot offsets on the device are the same function -/
+theorem chainSrc_of_volStep {d d' : Dev} (hs : VolStep d d') (chain : List Nat) :
+    chainSrc d'.fs chain = chainSrc d.fs chain := chainSrc_geom hs.geom chain
+
 /-! ## non-vacuity: a sub-directory of two clusters (the listing crosses the cluster boundary through the FAT) -/
 
 namespace Ex2
@@ -625,5 +730,44 @@ example :
       (Lfn.numParts (Names.encodeUtf16 "New file.txt".toList).length + 1) = 3 ∧
     Lfn.numParts (Names.encodeUtf16 "New file.txt".toList).length + 1 = 2 := by
   decide +kernel
+
+/-! ## non-vacuity: deleting "B" from the two-cluster directory of `Ex2` (image filled up to the page size) -/
+
+namespace Ex5
+def bytes : List Nat := Ex2.bytes ++ List.replicate (4096 - Ex2.bytes.length) 0
+def dev : Dev := { img := Img.ofBytes bytes 4096, fs := Ex2.fs }
+/-- the listed entry of "B": slot 0 -/
+def b : LfnEntry := ⟨(DirFileEntryData.new Ex.sfn2 0x10).serialize, [], 0, 1⟩
+end Ex5
+
+theorem Ex5.wf : Ex5.dev.img.WF := by
+  intro k p hk
+  simp only [Ex5.dev, Img.ofBytes, Std.HashMap.getElem?_insert] at hk
+  split at hk
+  · cases hk; decide +kernel
+  · simp at hk
+
+open FatVerif.FileSim FatVerif.Fat in
+theorem Ex5.readable : ChainReadable Ex5.dev 2 none [2, 3] := by
+  have h2 : tabView Ex2.fs Ex5.dev.img 2 = .data 3 := by decide +kernel
+  have h3 : tabView Ex2.fs Ex5.dev.img 3 = .eoc := by decide +kernel
+  refine ⟨⟨rfl, ⟨by decide, by decide, by decide, by decide, by decide, by decide, by decide, by decide, by decide,
+    by decide, by decide⟩,
+    rfl, ?_, by decide, rfl, Or.inr rfl, (fun e he => by cases he), by decide, by decide⟩, by decide⟩
+  exact Chain.cons 2 3 [3] h2 (Chain.last 3 (fun n hn => by
+    have : tabView Ex5.dev.fs Ex5.dev.img 3 = .eoc := h3
+    rw [this] at hn; cases hn))
+
+/-- `deleteEntry_chain_sim` applied: the run succeeds and slot 0 of the directory is marked deleted; what remains listed
+    is "Hello.txt" (in cluster 3) -/
+example : ∃ d', run (deleteEntry (.file (FileH.new (some 2) none))
+      (toDirEntryS (chainSrc Ex5.dev.fs [2, 3]) Ex5.b)) Ex5.dev = (.ok (), d') ∧
+    chainSlots d'.fs d'.img [2, 3] = DirSlots.deleteRange (chainSlots Ex5.dev.fs Ex5.dev.img [2, 3]) 0 1 ∧
+    d'.fs.curDirty = true := by
+  obtain ⟨d', h1, h2, h3, _⟩ := deleteEntry_chain_sim Ex5.readable Ex5.wf Ex5.b (by decide +kernel)
+  exact ⟨d', h1, h2, h3⟩
+
+example : (DirSlots.listing (DirSlots.deleteRange (chainSlots Ex5.dev.fs Ex5.dev.img [2, 3]) 0 1)).map (·.units) =
+    [Names.encodeUtf16 "Hello.txt".toList] := by decide +kernel
 
 end FatVerif.DirSim
